@@ -603,9 +603,17 @@ def translator(P, R):
                 f'`{au.short(q)}` does not pass (expr, names, forall)')
     fa = [n for n in ast.walk(f.node) if isinstance(n, ast.Assign)
           and au.is_name(n.targets[0], 'forall')]
-    if not fa or au.src(fa[0].value).replace(' ', '') not in (
-            "operator=='\\\\A'", "'\\\\A'==operator"):
-        problems.append('`forall` is not (operator == "\\A")')
+    undecided = []
+    if fa and isinstance(fa[0].value, ast.Compare) and isinstance(
+            fa[0].value.ops[0], ast.Eq):
+        consts = [x.value for x in ast.walk(fa[0].value)
+                  if isinstance(x, ast.Constant)]
+        if consts != ['\\A']:
+            problems.append(
+                f'`forall` is true for the operator {consts} instead of '
+                '"\\A"')
+    else:
+        undecided.append('assignment of `forall` not recognised')
     unp = [n for n in ast.walk(f.node) if isinstance(n, ast.Assign)
            and isinstance(n.targets[0], ast.Tuple) and au.is_name(
                n.value, 'operands')]
@@ -641,6 +649,9 @@ def translator(P, R):
     if problems:
         R.violation('R-GRAMMAR', 'translator', f.qualname, '_apply',
                     '; '.join(problems), unit=f.unit.rel, line=f.lineno)
+    elif undecided:
+        R.undecided('R-GRAMMAR', f.qualname, '_apply',
+                    '; '.join(undecided))
     else:
         R.holds('R-GRAMMAR', f.qualname,
                 '\\A/\\E -> quantify(expr, names, forall=(op == \\A)); '
